@@ -340,7 +340,10 @@ def build_wn(wntr, spec):
 
         for i, c in enumerate(spec["controls"]):
             link = wn.get_link(c["link"])
-            act = CT.ControlAction(link, "setting", c["value"])
+            if c.get("attr", "setting") == "status":
+                act = CT.ControlAction(link, "status", {"CLOSED": wntr.network.LinkStatus.Closed, "OPEN": wntr.network.LinkStatus.Open}[c["value"]])
+            else:
+                act = CT.ControlAction(link, "setting", c["value"])
             cond = CT.SimTimeCondition(wn, "=", int(c["time"]))
             if c.get("kind") == "rule":
                 wn.add_control("setrule%d" % i, CT.Rule(cond, [act], name="setrule%d" % i))
@@ -447,7 +450,7 @@ def spec_signature(spec):
 
 # ----------------------------------------------------------------------------- directed scenarios
 
-SCENARIOS = ["psv", "prv", "fcv", "tcv", "pump_shutoff", "cv_reverse", "power_pump", "pump_curves", "cv_htol", "pump_points", "tank_tank"]
+SCENARIOS = ["psv", "prv", "fcv", "tcv", "pump_shutoff", "cv_reverse", "power_pump", "pump_curves", "cv_htol", "pump_points", "tank_tank", "cutset"]
 
 
 def _opts(rng, **kw):
@@ -549,6 +552,42 @@ def scenario_network(rng, name, variant=0):
             curves["c1"] = [(0.02, _r(rng, 8, 20, 1))]
             links.append({"name": "PUTT", "type": "pump", "start": "T1", "end": "T0", "pump_type": "HEAD", "curve": "c1", "initial_status": "OPEN"})
         opts = _opts(rng, demand_model=["DD", "PDD"][(variant // 2) % 2 if variant else rng.randrange(2)])
+    elif name == "cutset":
+        # (anti-)parallel pairs that are CUT SETS: R0 =(PA, PB)= J0 =(P2, P2b)= J1 - J2.  One member of a pair closed (initially / by a
+        # time control / reopened later) must NOT cut anything off; both members closed cuts J1, J2 off while J1's leak is on.
+        v = variant % 6
+        anti1, anti2 = (v % 2 == 0), (v % 3 != 1)
+        opts = _opts(rng, demand_model=rng.choice(["DD", "DD", "PDD"]))
+        hyd = opts["hydraulic_timestep"]
+        opts["duration"] = 5 * hyd
+        nodes = [{"name": "R0", "type": "reservoir", "head": _r(rng, 50, 70, 1), "head_pattern": None},
+                 _junc("J0", 5.0, _r(rng, 0.002, 0.008, 4), "pat0"), _junc("J1", 8.0, _r(rng, 0.002, 0.008, 4)), _junc("J2", 6.0, _r(rng, 0.001, 0.004, 4), "pat0")]
+        nodes[2]["leak"] = {"area": _r(rng, 5e-5, 3e-4, 6), "cd": 0.75, "start": 0, "end": None}
+        if rng.random() < 0.5:
+            nodes[3]["leak"] = {"area": 1e-4, "cd": 0.6, "start": hyd, "end": 4 * hyd}
+        first_closed = (v % 3 == 0)
+        links = [_pipe("PA", "R0", "J0", L=200.0, d=0.25, status="CLOSED" if first_closed else "OPEN"),
+                 _pipe("PB", *(("J0", "R0") if anti1 else ("R0", "J0")), L=250.0, d=0.25),
+                 _pipe("P2", "J0", "J1", L=150.0, d=0.2),
+                 _pipe("P2b", *(("J1", "J0") if anti2 else ("J0", "J1")), L=180.0, d=0.2),
+                 _pipe("P3", "J1", "J2", L=100.0, d=0.15)]
+        ctl = []
+        if not first_closed:
+            ctl += [{"link": "PA", "attr": "status", "value": "CLOSED", "time": hyd, "kind": "control"}]
+            if rng.random() < 0.6:
+                ctl += [{"link": "PA", "attr": "status", "value": "OPEN", "time": 3 * hyd, "kind": "control"}]
+        m2 = v % 3
+        if m2 == 0:    # only the first-defined member of the second pair closes, later reopens
+            ctl += [{"link": "P2", "attr": "status", "value": "CLOSED", "time": 2 * hyd, "kind": "control"},
+                    {"link": "P2", "attr": "status", "value": "OPEN", "time": 4 * hyd, "kind": "rule"}]
+        elif m2 == 1:  # both members close: J1, J2 are really cut off (leak on J1 still switched on), then reconnected
+            ctl += [{"link": "P2", "attr": "status", "value": "CLOSED", "time": 2 * hyd, "kind": "control"},
+                    {"link": "P2b", "attr": "status", "value": "CLOSED", "time": 2 * hyd, "kind": "control"},
+                    {"link": "P2b", "attr": "status", "value": "OPEN", "time": 4 * hyd, "kind": "control"}]
+        else:          # the downstream pipe closes: J2 alone is cut off
+            ctl += [{"link": "P3", "attr": "status", "value": "CLOSED", "time": hyd, "kind": "control"},
+                    {"link": "P2b", "attr": "status", "value": "CLOSED", "time": 3 * hyd, "kind": "control"}]
+        curves = {}
     elif name == "cv_htol":
         # R0 -CV pipe-> J0 -pipe-> R1 with R1 within / just outside the head tolerance above R0: only the FLOW test can close the CV
         off = rng.choice([0.0001, 0.00005, 0.00014, 0.00016, 0.001, -0.0001, 0.00012])
@@ -585,4 +624,6 @@ def scenario_network(rng, name, variant=0):
             "features": {"scenario": name}}
     if name in ("psv", "prv", "fcv", "tcv", "tank_tank"):
         add_setting_controls(rng, spec, p=0.85)
+    if name == "cutset":
+        spec["controls"] = ctl
     return spec
